@@ -1042,6 +1042,83 @@ func doRun(oraclePath string) {
 	}
 }
 
+// doAccept drives the tag filter of the REAL search directly: a hand-built condition set of one TagCondition
+// per accept mask 0..15 against a tag table over four streams, one per state (certain/undecided x matching/
+// failing). Three tables: 0 = nothing undecided (every mask reaches the accept switch of buildSearchObjects as
+// it is), 1 = two undecided streams whose recorded answers agree with the definition, 2 = two undecided streams
+// whose recorded answers are STALE (the definition decides; masks with one undecided bit are rewritten by
+// InlineTagFilters, the others reach the switch with an undecided stream). One line per (table, mask): the
+// states as the property sees them and the ids the search returned; the Lean driver compares with
+// `Pk.Search.tagAccept` / `tagAcceptSpec`. Mask 0 is left out: clean() turns such a conjunct into the impossible
+// condition, it never reaches the switch (and Parse reports a query that cannot match as one without conditions).
+func doAccept() {
+	time.Local = time.UTC
+	dir, err := os.MkdirTemp(os.Getenv("VERIF_SCRATCH_DIR"), "c02acc-")
+	if err != nil {
+		fmt.Fprintln(os.Stderr, err)
+		os.Exit(2)
+	}
+	defer os.RemoveAll(dir)
+	vs := []*slib.StreamV{}
+	for id := uint64(0); id < 4; id++ {
+		cp := uint16(1000)
+		if id >= 2 {
+			cp = 1001
+		}
+		vs = append(vs, &slib.StreamV{ID: id, CHost: "10.0.0.1", SHost: "10.0.0.2", CPort: cp, SPort: 80, FTms: int64(id) * 1000, LTms: int64(id)*1000 + 500})
+	}
+	r, err := slib.BuildIndex(dir, 0, vs)
+	if err != nil {
+		fmt.Fprintln(os.Stderr, err)
+		os.Exit(2)
+	}
+	defer r.Close()
+	def, err := query.Parse("cport:1000")
+	if err != nil {
+		fmt.Fprintln(os.Stderr, err)
+		os.Exit(2)
+	}
+	type table struct {
+		matches, uncertain []uint64
+		states             [][3]uint64 // id, undecided, matching — as the property sees the stream
+	}
+	tables := []table{
+		{[]uint64{0, 1}, nil, [][3]uint64{{0, 0, 1}, {1, 0, 1}, {2, 0, 0}, {3, 0, 0}}},
+		{[]uint64{0, 1}, []uint64{1, 3}, [][3]uint64{{0, 0, 1}, {1, 1, 1}, {2, 0, 0}, {3, 1, 0}}},
+		{[]uint64{0, 3}, []uint64{1, 3}, [][3]uint64{{0, 0, 1}, {1, 1, 1}, {2, 0, 0}, {3, 1, 0}}},
+	}
+	w := bufio.NewWriter(os.Stdout)
+	defer w.Flush()
+	for ti, t := range tables {
+		for a := 1; a < 16; a++ {
+			line := map[string]interface{}{"acc": true, "table": ti, "accept": a, "states": t.states}
+			func() {
+				defer func() {
+					if rec := recover(); rec != nil {
+						line["err"] = fmt.Sprintf("panic: %v", rec)
+					}
+				}()
+				tagDetails := map[string]query.TagDetails{"tag/t": {Matches: toMask(t.matches), Uncertain: toMask(t.uncertain), Conditions: def.Conditions}}
+				qs := query.ConditionsSet{query.Conditions{&query.TagCondition{TagName: "tag/t", Accept: query.TagConditionAccept(a)}}}
+				res, _, _, err := index.SearchStreams(context.Background(), []*index.Reader{r}, nil, slib.T0.Add(24*time.Hour), qs, nil, nil, 100, 0, tagDetails, nil, false)
+				if err != nil {
+					line["err"] = err.Error()
+					return
+				}
+				ids := []uint64{}
+				for _, st := range res {
+					ids = append(ids, st.ID())
+				}
+				sort.Slice(ids, func(i, j int) bool { return ids[i] < ids[j] })
+				line["res"] = ids
+			}()
+			b, _ := json.Marshal(line)
+			w.Write(b)
+			w.WriteByte('\n')
+		}
+	}
+}
+
 func main() {
 	if len(os.Args) < 2 {
 		fmt.Fprintln(os.Stderr, "usage: c02 gen|run")
@@ -1058,6 +1135,8 @@ func main() {
 		doGen(*seed, *n, *wide)
 	case "run":
 		doRun(*oracle)
+	case "accept":
+		doAccept()
 	case "parse":
 		time.Local = time.UTC
 		q, err := query.Parse(fs.Arg(0))
